@@ -420,6 +420,87 @@ func familyPart(role string, seq []fclass, fam string, seed int64, thorough bool
 // connection of its own to the same process and chooses what it carries; both
 // are read concurrently.  The victim's delivered bytes must stay a prefix of
 // what the victim's peer wrote.
+// spliceEarlierSession: the attacker recorded the ciphertext of an earlier
+// session of the same client with the same bridge and inserts it into a later
+// session.  The later session belongs to a client that dials again with the
+// arguments it parsed once -- a stock obfs4 client then presents the same
+// ephemeral public key (it is generated when the bridge line is parsed), so
+// only the bridge's fresh ephemeral key separates the two sessions' frame keys.
+func spliceEarlierSession(seed int64) mc.Scenario {
+	return mc.Scenario{Name: "splice-earlier-session/server", Weight: 30, Run: func(c *mc.Ctx) {
+		br := o4h.NewBridge(seed, "c05", 0, false)
+		rnd.Install(rnd.New(seed, "c05-real-splice"))
+		refRnd := rnd.New(seed, "c05-ref-splice")
+		eph := ref.NewEphemeral(refRnd)
+		forged := bytes.Repeat([]byte("ATTACKER-CHOSEN."), 8)
+		var hsErr, rfErr [2]error
+		var got [2][]byte
+		var rdErr [2]error
+		var recorded []byte
+		sched.Run(c, sched.Options{NoPreempt: true, NoEarlyTimers: true, MaxSteps: 3_000_000}, func() {
+			s := sched.Cur()
+			sf, err := br.ServerFactory()
+			if err != nil {
+				hsErr[0] = err
+				return
+			}
+			for i := 0; i < 2; i++ {
+				i := i
+				cw, sw := wire.Pipe(fmt.Sprintf("client%d", i), fmt.Sprintf("server%d", i))
+				done := false
+				s.Spawn(fmt.Sprintf("peer%d", i), func() {
+					defer func() { done = true }()
+					e := *eph
+					rs, _, err := o4h.RefClient(cw, br.ID.Pub[:], br.ID.NodeID[:], o4h.ClientOpts{PadLen: 80 + 7*i, Eph: &e}, refRnd)
+					if err != nil {
+						rfErr[i] = err
+						cw.Close()
+						return
+					}
+					if i == 0 {
+						// the earlier session: the client really sends these bytes
+						recorded = rs.BuildFrames(forged, 0)
+						rs.SendRaw(recorded)
+					} else {
+						// the later session: the client sends nothing; the attacker
+						// inserts the recorded ciphertext
+						rs.SendRaw(recorded)
+					}
+					cw.CloseWrite()
+				})
+				conn, err := sf.WrapConn(sw)
+				if err != nil {
+					hsErr[i] = err
+					return
+				}
+				b := make([]byte, 256)
+				for {
+					n, err := conn.Read(b)
+					got[i] = append(got[i], b[:n]...)
+					if err != nil {
+						rdErr[i] = err
+						break
+					}
+				}
+				conn.Close()
+				s.Point("peer-done", func() bool { return done })
+			}
+		})
+		if hsErr[0] != nil || hsErr[1] != nil || rfErr[0] != nil || rfErr[1] != nil {
+			fail(c, "setup", "handshake", "handshakes failed: %v %v", hsErr, rfErr)
+			return
+		}
+		c.Observe("out", fmt.Sprintf("first=%d later=%d err=%v", len(got[0]), len(got[1]), rdErr[1]))
+		if !bytes.Equal(got[0], forged) {
+			fail(c, "setup", "splice/first-session", "the earlier session did not deliver its own %d bytes (%d delivered, %v)", len(forged), len(got[0]), rdErr[0])
+			return
+		}
+		if len(got[1]) > 0 {
+			fail(c, "prefix", "forged-bytes/earlier-session", "ciphertext recorded in an earlier session of the same client (same client ephemeral key, as a stock client presents when it dials again with the same parsed bridge line) was inserted into a later session in which the client wrote nothing: the server delivered %d bytes", len(got[1]))
+		}
+	}}
+}
+
 func otherConnection(role string, seed int64) mc.Scenario {
 	return mc.Scenario{Name: "other-connection/" + role, Bound: 1, Weight: 300, Run: func(c *mc.Ctx) {
 		br := o4h.NewBridge(seed, "c05", 0, false)
@@ -524,6 +605,9 @@ func main() {
 		seqsOps := [][]fclass{{fOne, fOne, fOne, fOne}, {fOne, fPad, fMid}, {fMid, fFull, fOne}, {fFull, fFull}}
 		for _, role := range []string{"client", "server"} {
 			emit(otherConnection(role, cfg.Seed))
+			if role == "server" {
+				emit(spliceEarlierSession(cfg.Seed))
+			}
 			for _, sq := range seqsBits {
 				if cfg.Thorough() && len(sq) == 1 && sq[0].pay+sq[0].pad > 300 {
 					for k := 0; k < 8; k++ {
